@@ -432,6 +432,18 @@ func LoadKnown(property string) []KnownFinding {
 
 func (r *Run) Known() []KnownFinding { return r.known }
 
+// KnownClass returns the "known" entry of this property that declares the given
+// class, or nil. A check may suppress a violation only after it has shown, by
+// re-computation, that the violation falls into the class of such an entry.
+func (r *Run) KnownClass(class string) *KnownFinding {
+	for i := range r.known {
+		if r.known[i].Status == "known" && r.known[i].Class == class {
+			return &r.known[i]
+		}
+	}
+	return nil
+}
+
 // ReplayKnown replays the witnesses of this property's entries through judge.
 // judge returns "" when the witness behaves correctly, otherwise what went wrong.
 // known + still failing  -> KNOWN-FINDING line (exit code unaffected)
